@@ -146,3 +146,10 @@ Definition pevent_equivb (a b : pevent) : bool :=
   | PStart q1 a1 n1, PStart q2 a2 n2 => str_eqb q1 q2 && attrs_eqb a1 a2 && ns_equivb n1 n2
   | _, _ => pevent_eqb a b
   end.
+
+Fixpoint forallb2_pe (a b : list pevent) : bool :=
+  match a, b with
+  | [], [] => true
+  | x :: a', y :: b' => pevent_equivb x y && forallb2_pe a' b'
+  | _, _ => false
+  end.
